@@ -39,7 +39,8 @@ CONSTANTS
   MaxLive,   \* exploration bound: new keys are only recorded while fewer are retained
   ApiOps,    \* BOOLEAN: raw API actions
   SeqReq,    \* BOOLEAN: atomic sequential Request(q, outcome)
-  Reqs       \* ids of concurrent requests ({} switches the split form off)
+  Reqs,      \* ids of concurrent requests ({} switches the split form off)
+  LocalKinds \* the request-local causes a downstream handler reports in this config
 
 VARIABLES
   fq,    \* [QKeys -> Entry \cup {None}]   question failures
@@ -62,7 +63,8 @@ ZKeys == ZNames \X Classes                                \* <<zone, class>>
 
 SharedCauses == {"response", "authority"}
 LocalCauses  == {"budget", "attemptLimit", "deadline", "cancel", "shed", "bestEffort", "probeLimit"}
-DownLocal    == LocalCauses \ {"probeLimit"}               \* what a downstream handler can report
+DownLocal    == LocalKinds                                 \* what a downstream handler can report
+ASSUME LocalKinds \subseteq LocalCauses \ {"probeLimit"}
 Outcomes     == {"useful", "servfail", "authfail"} \cup DownLocal
 
 None == [streak |-> 0, rel |-> 0, bo |-> 0, cause |-> "-"]
